@@ -23,6 +23,8 @@ FILTERED_PROPS = (vprops.repeated_filtered_node_property, meta_item_internal.rep
 STRING_VIEW_PROPS = (vprops.repeated_string_property,)
 META_PROPS = (meta_item_internal.repeated_meta_item_property,)
 
+LIST_KINDS = ('raw_list', 'raw_list_comments', 'filtered', 'raw_meta', 'string_view', 'custom_view', 'meta')
+
 SKIP_ATTRS = {
     'spacing_before', 'spacing_after', 'raw_spacing_before', 'raw_spacing_after',  # C17
     'indent_by', 'token_store', 'tokens', 'first_token', 'last_token',
@@ -271,14 +273,22 @@ class Generator:
             return None
         ks = sorted(groups)
         ws = [self.WEIGHTS.get(k, 1) for k in ks]
+        sticky = getattr(self, 'sticky', None)
         for _ in range(tries):
             k = r.choices(ks, ws)[0]
             path, m, a, d = r.choice(groups[k])
+            if sticky and r.random() < 0.5:
+                # stay on the model the previous operation touched: consecutive edits through different views of one list
+                same = [(kk, c) for kk in ks for c in groups[kk] if c[1] is sticky and kk in LIST_KINDS]
+                if same:
+                    k, (path, m, a, d) = r.choice(same)
             try:
                 op = self.build(root, path, m, a, d, k)
             except (decimal.DecimalException, ZeroDivisionError):
                 continue       # reading the current value of an expression such as 1/0
             if op is not None:
+                if k in LIST_KINDS:
+                    self.sticky = m
                 return op
         return None
 
@@ -926,3 +936,91 @@ class MiscGenerator:
             p, m = r.choice(nodes)
             return Op('claim:auto', f'{p}.auto_claim_comments()', root, '$', lambda: [], m.auto_claim_comments)
         return None
+
+
+def pingpong_ops(root, r, nsteps=10):
+    """Hands comments back and forth between the models and lists that could own them: a random walk over
+    above.claim/unclaim_trailing, below.claim/unclaim_leading and claim/unclaim_interleaving of the lists around one adjacent pair
+    (consecutive list elements, or a transaction's last meta item and first posting). Returns a list of Op."""
+    from autobean_refactor.models.internal.surrounding_comments import SurroundingCommentsMixin
+    pairs = []
+    for p, m in walker.tree_models(root):
+        wrappers = [(a, getattr(m, a)) for a, d, k in catalog(type(m)) if k == 'raw_list_comments']
+        for a, w in wrappers:
+            items = [x for x in w if isinstance(x, SurroundingCommentsMixin)]
+            for x, y in zip(items, items[1:]):
+                pairs.append((f'{p}.{a}', x, y, [w]))
+            if items:
+                pairs.append((f'{p}.{a}', None, items[0], [w]))
+                pairs.append((f'{p}.{a}', items[-1], None, [w]))
+        if isinstance(m, models.Transaction):
+            metas = [x for x in m.raw_meta_with_comments if isinstance(x, SurroundingCommentsMixin)]
+            posts = [x for x in m.raw_postings_with_comments if isinstance(x, SurroundingCommentsMixin)]
+            if metas and posts:
+                pairs.append((p, metas[-1], posts[0], [m.raw_meta_with_comments, m.raw_postings_with_comments]))
+            if metas:
+                pairs.append((p, metas[-1], None, [m.raw_meta_with_comments, m.raw_postings_with_comments]))
+    if not pairs:
+        return []
+    store = root.token_store
+
+    def comment_between(x, y):
+        try:
+            t = store.get_next(x.last_token) if x is not None else None
+            if x is None:
+                t = store.get_prev(y.first_token)
+                succ = store.get_prev
+                stop = None
+            else:
+                succ = store.get_next
+                stop = y.first_token if y is not None else None
+            n = 0
+            while t is not None and t is not stop and n < 12:
+                if isinstance(t, models.BlockComment):
+                    return True
+                if t.raw_text and not isinstance(t, walker.SPACING):
+                    return False
+                t = succ(t)
+                n += 1
+        except Exception:
+            pass
+        return False
+    with_comment = [pr_ for pr_ in pairs if comment_between(pr_[1], pr_[2])]
+
+    def placeholder_in_gap(x, y):
+        # a list placeholder sits between the two models: claims have to move it around the comment
+        try:
+            t = store.get_next(x.last_token)
+            n = 0
+            while t is not None and t is not y.first_token and n < 12:
+                if isinstance(t, internal.Placeholder):
+                    return True
+                t = store.get_next(t)
+                n += 1
+        except Exception:
+            pass
+        return False
+    with_ph = [pr_ for pr_ in with_comment if pr_[1] is not None and pr_[2] is not None and placeholder_in_gap(pr_[1], pr_[2])]
+    where, x, y, ws = r.choice(with_ph if with_ph and r.random() < 0.7 else (with_comment or pairs))
+    owners = []
+    if x is not None:
+        owners.append(('above.{}_trailing_comment()', x.claim_trailing_comment, x.unclaim_trailing_comment))
+    if y is not None:
+        owners.append(('below.{}_leading_comment()', y.claim_leading_comment, y.unclaim_leading_comment))
+    for i, w in enumerate(ws):
+        owners.append((f'list{i}.{{}}_interleaving_comments()', w.claim_interleaving_comments, w.unclaim_interleaving_comments))
+    out = []
+    if len(owners) >= 2 and r.random() < 0.6:
+        # round robin: every owner in turn claims the comment and lets it go again, several rounds
+        cyc = r.sample(owners, r.randint(2, len(owners)))
+        for _ in range(3):
+            for name, claim, unclaim in cyc:
+                out.append(Op('claim:pingpong', f'[{where}] ' + name.format('claim'), root, '$', lambda: [], claim))
+                out.append(Op('claim:pingpong', f'[{where}] ' + name.format('unclaim'), root, '$', lambda: [], unclaim))
+        return out
+    while len(out) < nsteps:
+        name, claim, unclaim = r.choice(owners)
+        out.append(Op('claim:pingpong', f'[{where}] ' + name.format('claim'), root, '$', lambda: [], claim))
+        if r.random() < 0.85:
+            out.append(Op('claim:pingpong', f'[{where}] ' + name.format('unclaim'), root, '$', lambda: [], unclaim))
+    return out
